@@ -1,6 +1,7 @@
 """U-MCALL: the generic-callee path of mono::mono_expr's ECall arm, as a fragment (from `let generic_func_name = ...` to the end of
 the arm).  The fragment's live variables (ctx, callee, new_func, new_args, new_ty) become parameters."""
 import re
+from units.common import arm_guard
 from vlib.gen import Unit, Fn, Adt, Raw
 from units.u_munify import UNIT as MUNIFY
 
@@ -34,6 +35,8 @@ UNIT = Unit(
              "unify is ASSUMED deterministic there (stub unify_det: the clauses U-MUNIFY proves, plus `succeeds` / `result` as uninterpreted functions of "
              "its arguments) so that 'the bare name survives only where unification fails or leaves a type parameter' can be stated"],
     items=[
+        arm_guard("crates/compiler/src/mono.rs", "mono_expr", None, r"match e\.clone\(\) \{",
+                  ['core::Expr::EVar', 'core::Expr::EPrim', 'core::Expr::EConstr', 'core::Expr::ETuple', 'core::Expr::EArray', 'core::Expr::EClosure', 'core::Expr::ELet', 'core::Expr::EMatch', 'core::Expr::EIf', 'core::Expr::EWhile', 'core::Expr::EGo', 'core::Expr::EConstrGet', 'core::Expr::EUnary', 'core::Expr::EBinary', 'core::Expr::ECall', 'core::Expr::EToDyn', 'core::Expr::EDynCall', 'core::Expr::ETraitCall', 'core::Expr::EProj']),
         Adt(file="crates/compiler/src/tast.rs", kw="enum", name="Ty", rules=["attrs"]),
         Adt(file="crates/compiler/src/tast.rs", kw="struct", name="TastIdent", rules=["attrs"]),
         Raw(path="contracts/munify.shim.rs"),
